@@ -219,3 +219,56 @@ pub fn parse_utf16_lengths(s: &str, o: Opts, fallible: bool) -> PRes {
 		wrap(|| Value::parse_infallible_with(s.chars().map(DecodedChar::from_utf16), op))
 	}
 }
+
+/// How a character source declares the encoded length of its characters.
+#[derive(Clone, Copy, Debug, PartialEq, Eq)]
+pub enum Widths {
+	/// UTF-16 code units (`DecodedChar::from_utf16`).
+	Utf16Units,
+	/// UTF-16 bytes (2 or 4).
+	Utf16Bytes,
+	/// UTF-32 bytes (always 4).
+	Utf32,
+	/// A source in which the JSON text was itself escaped: quotes, backslashes, line breaks and tabs take 2 bytes.
+	Escaped,
+}
+
+pub const ALL_WIDTHS: [Widths; 4] = [Widths::Utf16Units, Widths::Utf16Bytes, Widths::Utf32, Widths::Escaped];
+
+impl Widths {
+	pub fn of(self, c: char) -> usize {
+		match self {
+			Widths::Utf16Units => c.len_utf16(),
+			Widths::Utf16Bytes => 2 * c.len_utf16(),
+			Widths::Utf32 => 4,
+			Widths::Escaped => match c {
+				'"' | '\\' | '\n' | '\t' | '\r' => 2,
+				c => c.len_utf8(),
+			},
+		}
+	}
+}
+
+/// Parses `s` through `parse_with` / `parse_infallible_with` over a source
+/// whose characters carry the lengths given by `w`.
+pub fn parse_widths(s: &str, o: Opts, w: Widths, fallible: bool) -> PRes {
+	let op = options(o);
+	if fallible {
+		wrap(|| Value::parse_with(s.chars().map(|c| Ok::<DecodedChar, Infallible>(DecodedChar::new(c, w.of(c)))), op))
+	} else {
+		wrap(|| Value::parse_infallible_with(s.chars().map(|c| DecodedChar::new(c, w.of(c))), op))
+	}
+}
+
+/// The iterator entry points fed by sources whose `size_hint` is `(0, None)`
+/// (`iter::from_fn`), as a lazy decoder would be.
+pub fn parse_unsized_source(which: usize, s: &str, o: Opts) -> PRes {
+	let op = options(o);
+	let mut it = s.chars();
+	match which % 4 {
+		0 => wrap(|| Value::parse_utf8_with(std::iter::from_fn(move || it.next().map(Ok::<char, Infallible>)), op)),
+		1 => wrap(|| Value::parse_utf8_infallible_with(std::iter::from_fn(move || it.next()), op)),
+		2 => wrap(|| Value::parse_with(std::iter::from_fn(move || it.next().map(|c| Ok::<DecodedChar, Infallible>(DecodedChar::from_utf8(c)))), op)),
+		_ => wrap(|| Value::parse_infallible_with(std::iter::from_fn(move || it.next().map(DecodedChar::from_utf8)), op)),
+	}
+}
